@@ -115,6 +115,34 @@ pub fn halfway_literals(bits: u64) -> Vec<String> {
         }
         // appended digit variants: mid followed by 0..01 (just above) and mid with the trailing 5 -> 49..9
         out.push(format!("{}{}", mid, if mid.contains('.') { "0000000001" } else { ".0000000001" }));
+        // the same values written with an all-zero fraction / trailing zeros / an exponent
+        let n = out.len();
+        for i in 0..n.min(3) {
+            let m = out[i].clone();
+            if m.contains('.') {
+                out.push(format!("{m}0"));
+                out.push(format!("{m}000000000000000000000"));
+            } else {
+                out.push(format!("{m}.0"));
+                out.push(format!("{m}.000000000000000000000"));
+                out.push(format!("{m}e0"));
+                out.push(format!("{m}0e-1"));
+            }
+        }
+    }
+    // the same midpoint continued by zeros and a final 1 so that the number of stored digits crosses
+    // the 768-digit buffer of the big-decimal fallback at every residue of its 8-digit block copy
+    if let Some(dot) = mid.find('.') {
+        let frac = mid.len() - dot - 1;
+        if frac < 700 {
+            for total in (755..=777usize).chain([800, 1100]) {
+                out.push(format!("{}{}1", mid, "0".repeat(total - frac - 1)));
+            }
+        }
+    } else if mid.len() < 300 {
+        for total in [760usize, 767, 768, 769, 775] {
+            out.push(format!("{}.{}1", mid, "0".repeat(total - 1)));
+        }
     }
     // truncated forms (17..40 significant digits) are further hard cases
     for keep in [17usize, 18, 19, 20, 21, 25, 33, 40] {
